@@ -28,12 +28,15 @@ def gen_actions(rng, kind, n):
     if kind == "dense": return [tuple(v) for v in rng.sample([(1, 0, 2), (0, 3, 1), (2, 2, 0), (5, 0, 0), (0, 0, 7)], n)]
     if kind == "densecat": return [(Categorical(l, LEVELS), i) for i, l in enumerate(rng.sample(LEVELS, n))]
     if kind == "nested": return [((i, i + 1), i + 2) for i in rng.sample(range(1, 9), n)]
+    if kind == "nestcat": return [[[Categorical(l, LEVELS), i], i + 1] for i, l in enumerate(rng.sample(LEVELS, n))]      # a categorical inside a nested list of a dense action
+    if kind == "sparsecat": return [{"f": [Categorical(l, LEVELS), 1], "g": i + 1} for i, l in enumerate(rng.sample(LEVELS, n))]
     return [{"k%d" % i: 1, "z": i + 1} for i in rng.sample(range(1, 9), n)]
 
 def gen_reward(rng, actions, form):
     from coba.primitives import BinaryReward, DiscreteReward, L1Reward
     vals = [rng.choice([0, 0.25, 0.5, 1, 2]) for _ in actions]
     if form == "list": return vals, vals
+    if rng.random() < 0.5: actions = copy.deepcopy(actions)      # the reward function is keyed by equal, but not the same, action objects (e.g. after pickling)
     if form == "binary":
         i = rng.randrange(len(actions)); v = rng.choice([1, 1, 0.5])
         return BinaryReward(actions[i], v), [v if k == i else 0 for k in range(len(actions))]
@@ -49,10 +52,11 @@ def gen_interaction(rng, kind, n_inter):
     fform = rng.choice([None, None, "list", "discrete", "callable"])
     logged = rng.random() < 0.4
     same_actions = rng.random() < 0.5
-    n = rng.choice([2, 3, 3, 4]) if kind not in ("cat", "densecat") else rng.choice([2, 3, 4])
+    CATK = ("cat", "densecat", "nestcat", "sparsecat")
+    n = rng.choice([2, 3, 3, 4]) if kind not in CATK else rng.choice([2, 3, 4])
     base = gen_actions(rng, kind, n)
     for _ in range(n_inter):
-        acts = list(base) if same_actions else gen_actions(rng, kind, rng.choice([2, 3, 4]) if kind not in ("cat", "densecat") else rng.choice([2, 3, 4]))
+        acts = list(base) if same_actions else gen_actions(rng, kind, rng.choice([2, 3, 4]))
         r, rv = gen_reward(rng, acts, form)
         it = {"context": rng.choice([None, 1, (1, 2), {"c": 1}]), "actions": acts, "rewards": r}
         exp = {"rewards": rv}
@@ -69,6 +73,7 @@ def gen_chain(rng, kind):
     for _ in range(rng.choice([1, 1, 2, 3])):
         opts = []
         if cur in ("cat", "densecat"): opts += ["repr"] * 3
+        if cur in ("nestcat", "sparsecat"): opts += ["repr-nest"] * 3
         if cur in ("nested", "dense", "densecat"): opts.append("flatten")
         if cur in ("int", "float", "str", "dense"): opts.append("sparsify")
         if cur in ("sparse",): opts.append("densify")
@@ -80,6 +85,8 @@ def gen_chain(rng, kind):
             chain.append(F.Repr(cc, ca)); desc.append("Repr(%r,%r)" % (cc, ca))
             cur = {"cat": {"onehot": "dense", "onehot_tuple": "dense", "string": "str"}[ca], "densecat": "dense" if ca != "string" else "densestr"}[cur]
             if cur == "densestr": cur = "other"
+        elif k == "repr-nest":
+            ca = rng.choice(["onehot", "onehot_tuple", "string"]); chain.append(F.Repr(None, ca)); desc.append("Repr(None,%r)" % ca); cur = "other"
         elif k == "repr-none": chain.append(F.Repr(rng.choice([None, "string"]), None)); desc.append("Repr(.,None)")
         elif k == "flatten": chain.append(F.Flatten()); desc.append("Flatten()"); cur = "dense" if cur != "densecat" else "densecat"
         elif k == "sparsify": c = rng.random() < 0.5; chain.append(F.Sparsify(context=c, action=True)); desc.append("Sparsify(%s,True)" % c); cur = "sparse"
@@ -113,7 +120,7 @@ def run(ctx):
     rng = ctx.rng
     reqs = []
     for _ in range(ctx.n(1500, 20000)):
-        kind = rng.choice(["int", "float", "str", "cat", "cat", "dense", "densecat", "nested", "sparse"])
+        kind = rng.choice(["int", "float", "str", "cat", "cat", "dense", "densecat", "nested", "sparse", "nestcat", "sparsecat"])
         pairs, d = gen_interaction(rng, kind, rng.choice([1, 2, 3]))
         chain, cdesc = gen_chain(rng, kind)
         case = dict(d, chain=cdesc, interactions=[repr({k: (v if not callable(v) or hasattr(v, "__getstate__") else "<callable>") for k, v in it.items()})[:300] for it, _ in pairs])
